@@ -16,6 +16,12 @@ def _seeded_bw(seed, n, kind="standard", prefix="sd"):
     return out
 
 
+def _tangle_bw(seed, n, kind="standard", variant="bytewise"):
+    rng = random.Random(500009 * seed + 11 + len(kind))
+    return [Entry("tg%d_%s%s" % (i, kind[:2], "c" if variant == "charwise" else ""), variant, kind,
+                  corpus.gen_bw_tangle(rng, i), note="seeded-tangle(%d)" % seed) for i in range(n)]
+
+
 def _edge_bw(seed, n, kind="standard"):
     rng = random.Random(900007 * seed + 3)
     return [Entry("ed%d_%s" % (i, kind[:2]), "bytewise", kind, corpus.gen_bw_edge(rng, i), note="seeded-edge(%d)" % seed)
@@ -77,6 +83,8 @@ def plan_for(prop, tier, seed):
             P.add(e, *fams)
         for e in _edge_bw(seed, 24 if q else 96):
             P.add(e, "T1")
+        for e in _tangle_bw(seed, 8 if q else 48):
+            P.add(e, "T2", "T34")
         if q:
             # evicting multi-block builds, edges only (T1 on 1536 slots: ~20 s)
             P.add(bw("evict3", nfb=1, suffix="_n1"), "T1")
@@ -114,6 +122,11 @@ def plan_for(prop, tier, seed):
             P.add(bw(n, kind), *fams)
         for e in _seeded_bw(seed, 2 if q else 16, kind):
             P.add(e, *fams)
+        # dense prefix/suffix/infix relations: the per-state leftmost oracle on many small automata
+        for e in _tangle_bw(seed, 16 if q else 64, kind):
+            P.add(e, "T2", "T34")
+        for e in _tangle_bw(seed + 1, 4 if q else 16, kind, "charwise"):
+            P.add(e, "T2", "T34")
         for n in (("w123", "a4", "thai") if q else ("w123", "a4", "a2", "a5", "thai", "tokyo", "cjk", "astral")):
             P.add(cw(n, kind), *fams)
         for e in _seeded_cw(seed, 1 if q else 10, kind):
